@@ -16,23 +16,13 @@ Mirrors `account/client.go` (`ClientImpl`: `NewAccount`, `addAccountData`, `Impo
   `save` wrote. File-system errors are not modelled (every `save` succeeds).
 * each record carries three ghost fields (`gSk gPw gPrm`: the key, password and parameters it was encrypted from); they are
   not in the Go struct, no operation reads them, and they are what "current password" means in the theorems.
-* `Variant.asShipped` is the code as it is; `Variant.sound` repairs four defects (each switchable on its own): `NewAccount` encrypts with the default
-  scrypt parameters instead of the wallet's; `addAccountData` accepts an address that is already present; `SetLabel(a, "")`
-  indexes the empty label; `ChangePassword` accepts an empty new password (which `getAccount` can never open).
+* the model mirrors the code after the four repairs of this property (commits d294e356, a84b1885, 6bfbaccd, f7a6a185):
+  `NewAccount` encrypts with the wallet's scrypt parameters, `addAccountData` refuses an address that is already present,
+  `SetLabel(a, "")` does not index the empty label, `ChangePassword` refuses an empty new password. The four witnesses of the
+  old behaviour are kept in `corpus/C38/` (a reversion is a correspondence break and a predicate failure).
 Core Lean only.
 -/
 namespace OntVerif.Model.Wallet
-
-/-- which of the four repairs are applied (each is one of `fixes/C38-*.patch`) -/
-structure Variant where
-  fixScrypt : Bool      -- NewAccount encrypts with the wallet's scrypt parameters
-  fixDupAddr : Bool     -- addAccountData rejects an address that is already present
-  fixEmptyLabel : Bool  -- SetLabel does not index the empty label
-  fixEmptyPw : Bool     -- ChangePassword rejects an empty new password
-deriving DecidableEq, Repr
-
-def Variant.asShipped : Variant := ⟨false, false, false, false⟩
-def Variant.sound : Variant := ⟨true, true, true, true⟩
 
 structure Crypto where
   Cipher : Type
@@ -132,25 +122,24 @@ inductive Err | ok | emptyPw | sigScheme | dupLabel | dupAddr | noAccount | isDe
 deriving DecidableEq, Repr
 
 /-- `addAccountData` -/
-def W.addAccountData (v : Variant) (w : W cr) (a : Acc cr) : Err × W cr :=
+def W.addAccountData (w : W cr) (a : Acc cr) : Err × W cr :=
   if !checkSig a.alg a.scheme then (.sigScheme, w)
   else if a.label ≠ "" ∧ (lk w.byLabel a.label).isSome then (.dupLabel, w)
-  else if v.fixDupAddr ∧ (lk w.byAddr a.addr).isSome then (.dupAddr, w)
+  else if (lk w.byAddr a.addr).isSome then (.dupAddr, w)
   else
     -- Go saves between the list append and the map updates; the file content does not depend on the maps
     (.ok, (w.push (if w.list.length = 0 then { a with isDefault := true } else a)).save)
 
 /-- `NewAccount`: `sk`/`addr` = the generated key pair and its address, `salt` = the random salt -/
-def W.newAccount (v : Variant) (w : W cr) (label : String) (scheme pw sk addr salt : Nat) : Err × W cr :=
+def W.newAccount (w : W cr) (label : String) (scheme pw sk addr salt : Nat) : Err × W cr :=
   if pw = 0 then (.emptyPw, w)
   else
-    let prm := if v.fixScrypt then w.prm else DEFAULT_PRM
-    w.addAccountData v ⟨addr, label, false, salt, cr.enc sk pw salt prm, 0, scheme, sk, pw, prm⟩
+    w.addAccountData ⟨addr, label, false, salt, cr.enc sk pw salt w.prm, 0, scheme, sk, pw, w.prm⟩
 
 /-- `ImportAccount` of a record that was encrypted from `(sk, pw)` under parameters `prm` -/
-def W.importAccount (v : Variant) (w : W cr) (label : String) (alg scheme pw sk addr salt prm : Nat) : Err × W cr :=
+def W.importAccount (w : W cr) (label : String) (alg scheme pw sk addr salt prm : Nat) : Err × W cr :=
   let label := if label ≠ "" ∧ (lk w.byLabel label).isSome then label ++ "_1" else label
-  w.addAccountData v ⟨addr, label, false, salt, cr.enc sk pw salt prm, alg, scheme, sk, pw, prm⟩
+  w.addAccountData ⟨addr, label, false, salt, cr.enc sk pw salt prm, alg, scheme, sk, pw, prm⟩
 
 /-- `keypair.DecryptWithCustomScrypt(&accData.ProtectedKey, passwd, this.walletData.Scrypt)` -/
 def W.decrypt (w : W cr) (a : Acc cr) (pw : Nat) : Option Nat :=
@@ -220,7 +209,7 @@ def W.setDefault (w : W cr) (addr : Nat) : Err × W cr :=
         | some a1 => (.ok, ({ (w.clearDefault.setObj id { a1 with isDefault := true }) with dflt := some id }).save)
 
 /-- `SetLabel` -/
-def W.setLabel (v : Variant) (w : W cr) (addr : Nat) (label : String) : Err × W cr :=
+def W.setLabel (w : W cr) (addr : Nat) (label : String) : Err × W cr :=
   if (lk w.byLabel label).isSome then (.dupLabel, w)
   else match lk w.byAddr addr with
     | none => (.noAccount, w)
@@ -232,11 +221,11 @@ def W.setLabel (v : Variant) (w : W cr) (addr : Nat) (label : String) : Err × W
         else
           let w1 := (w.setObj id { a with label := label }).save
           let w2 : W cr := { w1 with byLabel := ers w1.byLabel a.label }
-          let w3 : W cr := if v.fixEmptyLabel ∧ label = "" then w2 else { w2 with byLabel := ins w2.byLabel label id }
+          let w3 : W cr := if label = "" then w2 else { w2 with byLabel := ins w2.byLabel label id }
           (.ok, w3)
 
 /-- `ChangePassword`; `salt` = the fresh random salt of the re-encryption -/
-def W.changePassword (v : Variant) (w : W cr) (addr old new salt : Nat) : Err × W cr :=
+def W.changePassword (w : W cr) (addr old new salt : Nat) : Err × W cr :=
   if old = new then (.ok, w)
   else match lk w.byAddr addr with
     | none => (.noAccount, w)
@@ -247,7 +236,7 @@ def W.changePassword (v : Variant) (w : W cr) (addr old new salt : Nat) : Err ×
         match w.decrypt a old with
         | none => (.decrypt, w)
         | some k =>
-          if v.fixEmptyPw ∧ new = 0 then (.emptyPw, w)
+          if new = 0 then (.emptyPw, w)
           else (.ok, (w.setObj id { a with key := cr.enc k new salt w.prm, salt := salt, gSk := k, gPw := new, gPrm := w.prm }).save)
 
 /-- `ChangeSigScheme` -/
@@ -272,19 +261,19 @@ inductive Op
   | reload
 deriving Repr
 
-def W.step (v : Variant) (w : W cr) : Op → Err × W cr
-  | .new l s p sk a sa => w.newAccount v l s p sk a sa
-  | .imp l al s p sk a sa m => w.importAccount v l al s p sk a sa m
+def W.step (w : W cr) : Op → Err × W cr
+  | .new l s p sk a sa => w.newAccount l s p sk a sa
+  | .imp l al s p sk a sa m => w.importAccount l al s p sk a sa m
   | .del a p => w.deleteAccount a p
   | .setDefault a => w.setDefault a
-  | .setLabel a l => w.setLabel v a l
-  | .changePw a o n sa => w.changePassword v a o n sa
+  | .setLabel a l => w.setLabel a l
+  | .changePw a o n sa => w.changePassword a o n sa
   | .changeScheme a s => w.changeScheme a s
   | .reload => (.ok, w.reload)
 
-def W.run (v : Variant) (w : W cr) : List Op → W cr
+def W.run (w : W cr) : List Op → W cr
   | [] => w
-  | op :: r => W.run v (w.step v op).2 r
+  | op :: r => W.run (w.step op).2 r
 
 /-! ### observations (the getters of `ClientImpl`) -/
 
